@@ -24,6 +24,8 @@ from concurrent.futures import ThreadPoolExecutor
 
 VERIF = os.path.dirname(os.path.dirname(os.path.abspath(__file__)))
 REPO = "/repo"
+# every mutant is a text edit at a byte offset, so the sweep works on a FROZEN copy of /repo taken by `generate`
+# (<out dir>/base); when /repo changes, `generate` again - results of mutants that are textually the same are carried over
 PY = "/venv/bin/python"
 
 # file -> properties whose statement is anchored in (or directly depends on) that file, in the order they are tried
@@ -206,8 +208,12 @@ class Collector(ast.NodeVisitor):
         return
 
 
-def mutants_of(path):
-    src = open(os.path.join(REPO, path)).read()
+def base_dir(a):
+    return os.path.join(os.path.dirname(a.out), "base")
+
+
+def mutants_of(path, root=REPO):
+    src = open(os.path.join(root, path)).read()
     c = Collector(src)
     c.visit(ast.parse(src))
     out = []
@@ -227,11 +233,26 @@ def mutants_of(path):
     return out
 
 
+def carry_key(m, seen):
+    k = (m["file"], m["context"], m["old"], m["new"], m["kind"])
+    seen[k] = seen.get(k, 0) + 1
+    return k + (seen[k],)
+
+
 def cmd_generate(a):
     rng = random.Random(a.seed)
     allm = []
+    old = {}
+    if os.path.exists(a.out):
+        seen = {}
+        for m in json.load(open(a.out))["mutants"]:
+            old[carry_key(m, seen)] = m
+    base = base_dir(a)
+    shutil.rmtree(base, ignore_errors=True)
+    os.makedirs(os.path.dirname(base), exist_ok=True)
+    shutil.copytree(REPO, base, ignore=shutil.ignore_patterns(".git", "__pycache__", "docs", "*.egg-info", "notebooks", ".pytest_cache"))
     for f in sorted(FILE_PROPS):
-        ms = mutants_of(f)
+        ms = mutants_of(f, base)
         # do not mutate warnings / prints / plotting cosmetics lines: heuristically drop lines that only format messages
         ms = [m for m in ms if not any(t in m["context"] for t in ("warnings.warn", "print(", "raise ", "__all__", "import "))]
         rng.shuffle(ms)
@@ -247,17 +268,29 @@ def cmd_generate(a):
                     pick.append(by[k].pop())
         print("%-36s %4d candidates, %3d picked" % (f, len(ms), len(pick)))
         allm.extend(pick)
+    seen = {}
+    carried = 0
     for i, m in enumerate(allm):
         m["id"] = "M%04d" % i
+        o = old.get(carry_key(m, seen))
+        if o:
+            for k in ("tests", "tests_line", "result", "checks", "killed_by", "triage", "wall_s"):
+                if k in o:
+                    m[k] = o[k]
+            carried += 1
+    print("results carried over from the previous run for %d textually identical mutants" % carried)
     os.makedirs(os.path.dirname(a.out), exist_ok=True)
     json.dump({"seed": a.seed, "mutants": allm}, open(a.out, "w"), indent=1)
     print("%d mutants -> %s" % (len(allm), a.out))
 
 
+BASE = None
+
+
 def make_copy(m):
     scratch = tempfile.mkdtemp(prefix="pv-automut-")
     root = os.path.join(scratch, "repo")
-    shutil.copytree(REPO, root, ignore=shutil.ignore_patterns(".git", "__pycache__", "docs", "*.egg-info", "notebooks", ".pytest_cache"))
+    shutil.copytree(BASE, root, ignore=shutil.ignore_patterns(".git", "__pycache__", "docs", "*.egg-info", "notebooks", ".pytest_cache"))
     p = os.path.join(root, m["file"])
     src = open(p).read()
     assert src[m["start"]:m["end"]] == m["old"], "stale mutant %s" % m["id"]
@@ -289,8 +322,10 @@ def cmd_tests(a):
     print("%d mutants to test" % len(todo))
     byid = {m["id"]: m for m in data["mutants"]}
     done = 0
+    from concurrent.futures import as_completed
     with ThreadPoolExecutor(a.jobs) as ex:
-        for mid, res, last, wall in ex.map(run_tests, todo):
+        for fut in as_completed([ex.submit(run_tests, m) for m in todo]):
+            mid, res, last, wall = fut.result()
             byid[mid]["tests"] = res
             byid[mid]["tests_line"] = last
             done += 1
@@ -367,6 +402,8 @@ def main():
     ap.add_argument("--ids", default="")
     ap.add_argument("--redo", action="store_true")
     a = ap.parse_args()
+    global BASE
+    BASE = base_dir(a)
     {"generate": cmd_generate, "tests": cmd_tests, "checks": cmd_checks, "report": cmd_report}[a.cmd](a)
 
 
